@@ -44,6 +44,9 @@ USER = {
 _GL = {}
 
 
+_DECOYS = []
+
+
 def make_pulse(spec):
     from quantum_gates._gates import pulse as P
     k = spec["kind"]
@@ -108,13 +111,16 @@ def run_impl(pulse, key, theta, a):
         warnings.simplefilter("always")
         I = Integrator(pulse)
         v1 = I.integrate(key, theta, a)
+        if type(pulse).__name__ == "GaussianPulse":
+            # between the first (uncached) and the repeated (cached) evaluation other pulse objects come into being
+            from quantum_gates._gates import pulse as P
+            _DECOYS.append(P.GaussianPulse(loc=0.41, scale=0.13))
+            _DECOYS.append(P.GaussianPulse(loc=-0.2, scale=0.9))
+            del _DECOYS[:-4]
         v2 = I.integrate(key, theta, a)
         v3 = Integrator(pulse).integrate(key, theta, a)
     kinds = sorted({type(r.message).__name__ for r in rec})
     return float(v1), float(v2), float(v3), kinds
-
-
-_DECOYS = []
 
 
 def interleaved_case(rng):
